@@ -104,9 +104,13 @@ def render_file(f):
                 left = V.expr(e["vals"][0])
             if e.get("uni"):
                 left = f'("{e["uni"]}", {left})[1]'
-            if s["place"] == "helper_arg":
+            if e.get("access_only"):
+                ex = f"{getter(e['site'])}[{key}] is not None"
+            elif s["place"] == "helper_arg":
                 fn = {"eq": "check_eq", "le": "check_le", "ge": "check_ge", "in": "check_in"}[s["op"]]
                 ex = f"{fn}({left}, {getter(e['site'])})"
+            elif e.get("access_only"):
+                pass
             else:
                 ex = _cmp_expr(s["op"], left, getter(e["site"]), e.get("reflect", False), key, e.get("cop", "eq"))
             if loop:
